@@ -1,4 +1,4 @@
-ENTRY = {'modules': ['VirtioVerif.Props.C01'],
+ENTRY = {'modules': ['VirtioVerif.Props.C01', 'VirtioVerif.Props.C01Inv'],
  'assumptions': ['caller contract of the unsafe fns (buffers stay valid and untouched until popped; pop_used '
                  "gets the same buffers as add) — the harness's structured stream honours it, the malformed "
                  "stream deliberately does not and is compared with the model's explicit panic outcomes",
@@ -7,7 +7,17 @@ ENTRY = {'modules': ['VirtioVerif.Props.C01'],
                  'device-visible memory is observed under sequential consistency (store hook between '
                  'consecutive stores); hardware reordering is outside the model (fence presence/strength is '
                  'extracted from the source text for C02)'],
- 'explanation': 'Theorems about the executable queue model for every state: an accepted submission fills '
+ 'explanation': 'Invariant theorems over ALL histories (Lemmas/QueueInv, QueuePop, QueueReach): the '
+                'structural invariant of the driver state (free list = duplicate-free in-range chain '
+                'disjoint from all outstanding chains, chains pairwise disjoint, num_used exact, shadow and '
+                'device-visible descriptors encode each chain) holds in every state reachable from a fresh '
+                'queue of any size n<=32768 and mode by any sequence of submissions, polls and arbitrary '
+                'device writes to its own areas, and no operation panics under the caller contract. '
+                'add_publishes: in every reachable state an accepted submission yields a ring entry from '
+                "which the DEVICE'S parser (written from the spec: bounds, fuel-bounded walk, flag checks, "
+                "readable-before-writable, indirect table shape) obtains exactly the caller's buffers with "
+                'the addresses share returned; descriptors of outstanding chains are pairwise disjoint. '
+                'Theorems about the executable queue model for every state: an accepted submission fills '
                 'exactly the ring slot designated by the previous available index with the returned token, '
                 'advances the index by one mod 2^16, and uses an indirect table only if enabled; the chain '
                 'the device parses is checked on every submission by the reference device against the '
